@@ -33,3 +33,30 @@ pub open spec fn hygienic(r: Seq<char>) -> bool {
 }
 
 pub open spec fn no_lf(s: Seq<char>) -> bool { forall|i: int| 0 <= i < s.len() ==> s[i] != '\n' }
+
+/// some character of `s` is a Typst newline
+pub open spec fn has_newline_s(s: Seq<char>) -> bool { exists|i: int| 0 <= i < s.len() && is_typst_newline(#[trigger] s[i]) }
+/// the i-th character starts a line break the way Typst's lexer counts them (`\r\n` is one)
+pub open spec fn newline_at(s: Seq<char>, i: int) -> bool {
+    is_typst_newline(s[i]) && !(i >= 1 && s[i - 1] == '\r' && s[i] == '\n')
+}
+pub open spec fn count_newlines_s(s: Seq<char>) -> nat decreases s.len() {
+    if s.len() == 0 { 0 } else { count_newlines_s(s.drop_last()) + (if newline_at(s, s.len() - 1) { 1nat } else { 0nat }) }
+}
+pub proof fn lemma_count_newlines_bound(s: Seq<char>)
+    ensures count_newlines_s(s) <= s.len(), count_newlines_s(s) > 0 <==> has_newline_s(s),
+    decreases s.len(),
+{
+    if s.len() > 0 {
+        let p = s.drop_last();
+        lemma_count_newlines_bound(p);
+        if has_newline_s(p) { let i = choose|i: int| 0 <= i < p.len() && is_typst_newline(#[trigger] p[i]); assert(s[i] == p[i]); }
+        if has_newline_s(s) && !has_newline_s(p) {
+            let i = choose|i: int| 0 <= i < s.len() && is_typst_newline(#[trigger] s[i]);
+            if i < p.len() { assert(p[i] == s[i]); }
+            // the only newline is the last char; it cannot be the `\n` of a `\r\n` because `\r` is a newline too
+            if s.len() >= 2 && s[s.len() - 2] == '\r' { assert(p[s.len() - 2] == '\r'); assert(is_typst_newline(p[s.len() - 2])); }
+        }
+        if newline_at(s, s.len() - 1) { assert(is_typst_newline(s[s.len() - 1])); }
+    }
+}
